@@ -449,6 +449,10 @@ def callee_bodies(fb, fn):
     nm = mir.callee_name(fn)
     nb = fb.body(nm) or (fb.body(fn['path']) if fn.get('defkind') == 'Closure' else None)
     if nb is not None:
+        if nb.provided_of and not fn.get('resolved') and nb.path == fn.get('path'):
+            # a trait method with a default body, called on a type parameter / trait object: the overriding impls, and the
+            # default itself (an implementor that does not override it inherits it)
+            return impls_of(fb, fn) + [nb]
         return [nb]
     return impls_of(fb, fn)
 
@@ -999,3 +1003,19 @@ def find_one(chk, rule, bodies, what):
         chk.missing(rule, what)
         return None
     return bodies[0]
+
+
+def import_obligations(ctx, chk, mod, pid, level, select, tag):
+    """run another property's rules into a scratch checker and copy the obligations select(o) accepts, re-tagged `tag`
+    (never from inside an import: no recursion)"""
+    if getattr(chk, '_nested', False):
+        return 0
+    sub = type(chk)(pid, level, chk.tier)
+    sub._nested = True
+    getattr(mod, 'run_rules', mod.run)(ctx, sub)
+    n = 0
+    for o in sub.obs:
+        if select(o):
+            chk.ob(tag, '%s:%s' % (o['rule'], o['key']), o['ok'], o['where'], o['detail'])
+            n += 1
+    return n
